@@ -116,10 +116,33 @@ pub trait GraphNameIndex: TermIndex {
 //
 
 /// A generic implementation of [`TermIndex`].
-#[derive(Clone, Debug, Default)]
+#[derive(Debug, Default)]
 pub struct SimpleTermIndex<I: Index> {
     t2i: HashMap<SimpleTerm<'static>, I>,
     i2t: Vec<SimpleTerm<'static>>,
+}
+
+impl<I: Index> Clone for SimpleTermIndex<I> {
+    /// NB: `i2t` borrows its data from the keys of `t2i`,
+    /// so it can not be cloned as is: it must be rebuilt from the keys of the *cloned* `t2i`
+    /// (otherwise the clone would point into the memory of the original).
+    fn clone(&self) -> Self {
+        let mut t2i = HashMap::with_capacity(self.t2i.len());
+        let mut i2t = Vec::with_capacity(self.i2t.len());
+        for (i, t) in self.i2t.iter().enumerate() {
+            match t2i.entry(SimpleTerm::from_term(t.borrow_term())) {
+                Entry::Vacant(e) => {
+                    let t2 = e.key().as_simple();
+                    // safe for the same reason as in ensure_index below
+                    let t2: SimpleTerm<'static> = unsafe { std::mem::transmute(t2) };
+                    i2t.push(t2);
+                    e.insert(I::from_usize(i));
+                }
+                Entry::Occupied(_) => unreachable!("terms in a SimpleTermIndex are distinct"),
+            }
+        }
+        SimpleTermIndex { t2i, i2t }
+    }
 }
 
 impl<I: Index> SimpleTermIndex<I> {
